@@ -19,7 +19,7 @@ def value(rng, T):
     if T == "BOOLVECTOR": return [BV([rng.random() < 0.5 for _ in range(rng.randrange(0, 3))])]
     if T == "INTVECTOR": return [IV([rng.randrange(0, 9) for _ in range(rng.randrange(0, 3))])]
     if T == "FLOATVECTOR": return [FV([fbits(float(rng.randrange(0, 4))) for _ in range(rng.randrange(0, 3))])]
-    body = rng.choice([Z(rng.randrange(0, 50)), L(Z(1), Z(2), I("INTEGER.+")), B(True), L()])
+    body = rng.choice([Z(rng.randrange(0, 50)), L(Z(1), Z(2), I("INTEGER.+")), B(True), L(), N(rng.choice(NAMES)), L(N(rng.choice(NAMES)), Z(5))])
     if T == "CODE": return [I("CODE.QUOTE"), body]
     return []      # EXEC.DEFINE takes the next EXEC item itself
 
@@ -31,7 +31,8 @@ def op(rng, modelled):
         T = rng.choice([t for t in TYPES if t + ".DEFINE" in modelled])
         items = value(rng, T) + [I("NAME.QUOTE"), N(n), I(T + ".DEFINE")]
         if T == "EXEC":
-            items.append(rng.choice([Z(rng.randrange(0, 50)), L(Z(3), I("INTEGER.DUP")), B(False)]))
+            # the bound item may itself be a (bound or unbound) name: an alias, resolved at USE time
+            items.append(rng.choice([Z(rng.randrange(0, 50)), L(Z(3), I("INTEGER.DUP")), B(False), N(rng.choice(NAMES)), N(rng.choice(NAMES)), L(N(rng.choice(NAMES)))]))
         return items
     if k < 0.75: return [N(n)]                                  # use
     if k < 0.85: return [I("NAME.QUOTE"), rng.choice([Z(1), L(Z(2)), I("NOOP")]), N(n)]   # quote survives non-identifiers
@@ -50,7 +51,7 @@ def streams(seed, tier):
             prog += op(rng, modelled)
         cases.append(case_run(rng.randrange(2), state(exec=[L(*prog)]), 1, 0))
     return [Stream("define-use-quote", "run", "run.check", cases,
-                   "random interleavings (1..11 operations) of define / use / quote / redefine / CODE.DEFINITION over 8 value types x 3 names, executed as programs by run(); whole final state compared (typed stacks, NAME, name_bindings sorted, quote_name)")]
+                   "random interleavings (1..11 operations) of define / use / quote / redefine / CODE.DEFINITION over 8 value types x 3 names (values include bare names: aliases), executed as programs by run(); whole final state compared (typed stacks, NAME, name_bindings sorted, quote_name)")]
 
 
 TECHNIQUE = "Coq theorems about the identifier case of step, the generic DEFINE and the binding table (finite map, last-writer-wins over arbitrary histories; quote flag invariant over non-identifier steps via the footprint theorem) + differential correspondence of define/use/quote programs"
